@@ -35,6 +35,10 @@ import disgen  # noqa: E402
 ID = 'C09'
 LEAN_MODULES = ['Py65.Props.C09', disgen.GENEQ_MODULE, 'Py65.Props.C09g']
 NAMESPACES = ['Py65.Props.C09', 'Py65.Props.C09g', disgen.GENEQ_NAMESPACE]
+# library helpers (CPython behaviour modelled in lean/Py65/Model/*Rt*.lean ...) that the generated code of these
+# modules calls, derived by scanning the Lean sources (harness/rtscan.py); validated against CPython on every run
+import rtcheck  # noqa: E402
+RT_HELPERS = rtcheck.helpers_for(LEAN_MODULES)
 LEVEL = 'proof'
 USES_GEN = True
 EXPECTED_THEOREMS = [
